@@ -2,107 +2,242 @@
 import common as C
 import httpgen as G
 
-TRANSLATOR_TABLES = (("RouteTable", "routes"), ("ReadSets", "reads"), ("RespFields", "fields"))
+TRANSLATOR_TABLES = (("RouteTable", "routes"),)      # ReadSets / RespFields belong to C18 (checks/c18.py)
+PROBE = ("http", "http", "TestVerifProbeHttp")
 
 
 def pre(chk):
-    """Regenerate coq/gen/{RouteTable,ReadSets,RespFields}.v from /repo before the proof obligations are checked."""
+    """Regenerate coq/gen/RouteTable.v (route table, router options, per-handler request types) from /repo before the
+    proof obligations are checked."""
     for name, mode in TRANSLATOR_TABLES:
         C.write_gen(name, C.run_translator("http", [mode]))
 
 
+def project(line):
+    """What model and implementation are compared on: for a handled request the status code, content type, body kind,
+    error flag, status name, the backend requests issued and the parameters httprouter extracted (the message and the
+    request block are printed but not compared: the property does not speak about them); for an unrouted request only
+    that it is unrouted; for a storage-backed case only whether the dumps agree."""
+    f = line.split()
+    if not f:
+        return line
+    if f[0] == "U":
+        return "U"
+    if f[0] == "E2E":
+        return "E2E " + ("same" if len(f) > 1 and f[1] == "same" else "DIFF")
+    if f[0] == "H" and len(f) > 7:
+        return " ".join(f[:5] + f[7:])
+    return line
+
+
+def meta_of_line(ln):
+    """Corpus / replay lines carry their own configuration and world."""
+    f = ln.split()
+    m = {"kind": "corpus", "route": "corpus", "method": f[1] if len(f) > 1 else "?", "classes": ["corpus"], "override": 0,
+         "cfg": None, "world": None}
+    if f and f[0] == "req":
+        try:
+            m["cfg"], m["world"] = G.parse_cfg_world(ln)
+            m["override"] = G.parse_case(ln)["override"]
+        except Exception:
+            pass
+    return m
+
+
+def judge(case, meta, impl):
+    if meta["kind"] == "e2e":
+        return G.oracle_e2e(meta, impl)
+    if meta["cfg"] is None:
+        return "skip", "corpus line without a parsable configuration (judged by the differential only)"
+    return G.oracle(case, meta["cfg"], meta["world"], impl)
+
+
+def route_of(case):
+    pc = G.parse_case(case)
+    mt = G.match(pc["method"], pc["decoded"])
+    return (G.ROUTES[mt[0]] if mt else None), pc
+
+
+def focused_search(chk, routes, known):
+    """After a model/implementation mismatch that the oracle accepts: a bigger batch on the same registrations (fresh
+    configurations, worlds and parameters), implementation only, judged by the property's oracle."""
+    n = 400 if not chk.thorough else 4000
+    cases, metas = [], []
+    cfg = world = None
+    for i in range(n):
+        if i % 5 == 0:
+            cfg = G.gen_config(chk.rng)
+            world = G.gen_world(chk.rng, cfg)
+        c, m = G.gen_routed(chk.rng, i, cfg, world, route=routes[i % len(routes)])
+        if m["override"]:
+            continue
+        m["cfg"], m["world"] = cfg, world
+        cases.append(c)
+        metas.append(m)
+    impl = chk.run_impl(PROBE[1], PROBE[2], cases, name="focus")
+    chk.evaluations += len(cases)
+    for c, m, a in zip(cases, metas, impl):
+        verdict, why = judge(c, m, a)
+        if verdict == "violation":
+            key = G.classify(c, why)
+            if key and key in known:
+                continue
+            return c, a, why
+    return None
+
+
 def run(chk, failed):
-    n = 2600 if not chk.thorough else 60000
+    n = 8000 if not chk.thorough else 200000
+    n_e2e = 400 if not chk.thorough else 10000
     cases, metas = [], []
     for ln in C.read_corpus(chk.pid):
         cases.append(ln)
-        metas.append({"kind": "corpus", "route": "corpus", "method": ln.split()[1], "classes": ["corpus"], "override": 0,
-                      "cfg": None, "world": None})
+        metas.append(meta_of_line(ln))
     gc, gm = G.gen_c16(chk.rng, n)
     cases += gc
     metas += gm
+    for i in range(n_e2e):
+        c, m = G.gen_e2e(chk.rng, i)
+        cases.append(c)
+        metas.append(m)
     chk.rule = ("requests against the real router (coordinator.router.ServeHTTP) with a scripted, typed storage/evaluator "
                 "backend and a generated viper configuration: every registered /v3 pattern x parameter pool (existing, "
                 "upper/lower-case, near-miss, dotted incl. <name>.class-name/.password, spaces, NUL, %2F, 4 KiB, unicode, "
-                "invalid UTF-8, percent/reserved characters) plus a stream of mutated/unrouted paths and methods; "
-                "non-trivial = the request reaches a /v3 handler with at least one path parameter; distinct by "
-                "(method, decoded path, backend/config fingerprint)")
-    impl, model, mism = chk.differential("http", "http", "TestVerifProbeHttp", cases, name="req",
-                                         project=lambda s: "U" if s.startswith("U ") or s == "U" else s)
+                "invalid UTF-8, percent/reserved characters) plus a stream of mutated/unrouted paths and methods; plus "
+                "storage-backed cases (real storage + evaluator + HTTP coordinators, twin stacks, dump of every Fetch type "
+                "with and without a batch of GETs served in between, clock moved across expiry); "
+                "non-trivial = the request reaches a /v3 handler with at least one path parameter and a typed backend, or a "
+                "storage-backed case with at least one live group; distinct by the case line")
+    impl, model, mism = chk.differential(*PROBE, cases, name="req", project=project)
     bad = []
     for i, (c, m, a) in enumerate(zip(cases, metas, impl)):
-        if m["cfg"] is None:
-            verdict, why = ("skip", "corpus")
-            # corpus lines carry their own configuration; the oracle needs the python-side structures, so corpus
-            # cases are judged by the differential only
-        else:
-            verdict, why = G.oracle(c, m["cfg"], m["world"], a)
-        pc = G.parse_case(c)
-        mt = G.match(pc["method"], pc["decoded"])
-        if mt is not None and ":" in G.ROUTES[mt[0]][1] and G.ROUTES[mt[0]][1].startswith("/v3") and not m["override"]:
+        verdict, why = judge(c, m, a)
+        if m["kind"] == "e2e":
+            chk.count("route:storage-backed twin stacks")
+            chk.count("e2e:gets", len(m["gets"]))
+            chk.count("e2e:ingest-ops", m["n_ops"])
+            for cl in m["clusters"]:
+                for cat in m["groups"][cl].values():
+                    chk.count("e2e:group-" + cat)
+            chk.count("e2e:clock-advance-%s-expire" % ("beyond" if m["t_end_off"] > m["expire"] else "within" if m["t_end_off"] else "none"))
+            if " live=0 " not in a:
+                chk.nontrivial.add(C.case_hash(c))
+            chk.count("oracle:" + (why if verdict != "violation" else "VIOLATION"))
+            if verdict == "violation":
+                bad.append((i, c, a, why))
+            continue
+        rt, pc = route_of(c)
+        if rt is not None and ":" in rt[1] and rt[1].startswith("/v3") and not m["override"]:
             chk.nontrivial.add(C.case_hash(c))
-        route = G.ROUTES[mt[0]][0] + " " + G.ROUTES[mt[0]][1] if mt else "unrouted"
-        chk.count("route:" + route)
+        chk.count("route:" + (rt[0] + " " + rt[1] if rt else "unrouted"))
         for cl in m["classes"]:
             chk.count("param:" + cl)
         chk.count("code:" + (a.split()[1] if a[:2] in ("H ", "U ") else a.split()[0]))
-        chk.count("oracle:" + (why if verdict != "violation" else "VIOLATION"))
+        key = G.classify(c, why) if verdict == "violation" else None
+        chk.count("oracle:" + (why if verdict != "violation" else ("KNOWN " + key if key else "VIOLATION")))
         if verdict == "violation":
             bad.append((i, c, a, why))
     for i in (0, len(cases) // 3, 2 * len(cases) // 3, len(cases) - 1):
         c = cases[i]
-        chk.sample({"case": (c[:300] + " ...") if len(c) > 300 else c, "request": G.parse_case(c)["method"] + " " + G.parse_case(c)["raw"][:120],
-                    "impl": impl[i][:300], "model": model[i][:300]})
+        chk.sample({"case": (c[:300] + " ...") if len(c) > 300 else c, "impl": impl[i][:300], "model": model[i][:300]})
     reported = 0
+    known = set()
     for (i, c, a, why) in bad:
-        key = G.classify(c, why)
+        key = G.classify(c, why) if metas[i]["kind"] != "e2e" else None
         if key and chk.known_finding(key, c):
+            known.add(key)
             continue
         if reported < 5:
             reported += 1
-            pc = G.parse_case(c)
+            req = "storage-backed case" if metas[i]["kind"] == "e2e" else (G.parse_case(c)["method"] + " " + G.parse_case(c)["raw"][:300])
             chk.violation("req_%d" % i, {"kind": "input", "probe": "httpserver/TestVerifProbeHttp", "case": c,
-                                         "request": pc["method"] + " " + pc["raw"][:300],
+                                         "request": req,
                                          "impl_output": a, "model_output": model[i], "oracle_verdict": why,
                                          "classifier": key,
-                                         "broken": "C16 envelope rule on the implementation's response",
+                                         "broken": "C16 envelope / read-only rule on the implementation's response",
                                          "cmd": "bin/check C16 --replay <this file>"})
     bad_idx = {i for i, _, _, _ in bad}
-    for (i, c, a, b) in [x for x in mism if x[0] not in bad_idx][:5]:
-        # model and code disagree although the response satisfies the property's own rules
-        pc = G.parse_case(c)
+    rest = [x for x in mism if x[0] not in bad_idx]
+    if rest and not reported:
+        # model and code disagree although the responses seen satisfy the property's own rules: look for a failing input
+        # on the registrations involved before reporting a bare correspondence failure
+        routes = []
+        for (i, c, a, b) in rest:
+            if metas[i]["kind"] == "e2e" or not c.startswith("req"):
+                continue
+            rt, _ = route_of(c)
+            if rt is not None and rt[1].startswith("/v3") and rt not in routes:
+                routes.append(rt)
+        found = focused_search(chk, routes[:6], {k for k in [f["key"] for f in chk.known.get("findings", []) if f["property"] == chk.pid]}) if routes else None
+        if found:
+            c, a, why = found
+            chk.violation("focused", {"kind": "input", "probe": "httpserver/TestVerifProbeHttp", "case": c,
+                                      "request": G.parse_case(c)["method"] + " " + G.parse_case(c)["raw"][:300],
+                                      "impl_output": a, "oracle_verdict": why,
+                                      "broken": "C16 envelope rule on the implementation's response (found by the focused batch "
+                                                "after a model/implementation mismatch)",
+                                      "first_mismatch": {"case": rest[0][1][:400], "impl": rest[0][2], "model": rest[0][3]},
+                                      "cmd": "bin/check C16 --replay <this file>"})
+            reported += 1
+            rest = []
+    if reported and rest:
+        chk.notes.append("%d further model/implementation mismatches on responses that satisfy the oracle (not reported separately: "
+                         "failing inputs were found)" % len(rest))
+        rest = []
+    for (i, c, a, b) in rest[:5]:
+        req = "storage-backed case" if metas[i]["kind"] == "e2e" or not c.startswith("req") else \
+            (G.parse_case(c)["method"] + " " + G.parse_case(c)["raw"][:300])
         chk.violation("corr_%d" % i, {"kind": "input", "probe": "httpserver/TestVerifProbeHttp", "case": c,
-                                      "request": pc["method"] + " " + pc["raw"][:300],
+                                      "request": req,
                                       "impl_output": a, "model_output": b,
-                                      "oracle_verdict": "envelope rules hold on this response; the model no longer describes the handler",
+                                      "oracle_verdict": "envelope rules hold on this response (and on a focused batch); the model no "
+                                                        "longer describes the handler",
                                       "broken": "corr:http.handle", "cmd": "bin/check C16 --replay <this file>"},
                       found_input=False)
-    if failed and not bad and not mism:
+    if failed and not reported and not rest:
         chk.violation("obligation", {"kind": "table", "broken": [n for n, _ in failed], "detail": [d[-1500:] for _, d in failed],
                                      "note": "no request of this run failed the envelope rules; the route table / request-type "
                                              "obligation or a theorem no longer checks"}, found_input=False)
     elif failed:
         chk.notes.append("failed obligations: %s" % [n for n, _ in failed])
     chk.assumptions += [
-        "path -> (route, params) is httprouter v1.3.0's matching (trusted); the model's dispatch is compared with router.Lookup on every case",
-        "the storage/evaluator subsystems are an abstract backend; theorems assume Http.backend_typed (to be discharged from the storage/evaluator models)",
+        "path -> (route, params) is httprouter v1.3.0's matching (trusted); the model's dispatch is compared with router.Lookup on every case; "
+        "httprouter's own 301/307/405/OPTIONS answers are router-level and accepted",
+        "the storage/evaluator subsystems are an abstract backend; theorems assume Http.backend_typed, whose storage half is proved from "
+        "Storage.step's reply constructors (HttpProofs.storage_backend_typed) given that FetchConsumer does not panic (C08/F6), and whose "
+        "evaluator half (non-nil status, finite float32) is assumed",
+        "the evaluator turns an evaluator request into StorageFetchConsumer for the same pair (evaluator/caching.go); checked at run time by the "
+        "storage-backed cases, not by a table",
         "viper lookup as modelled: keys lower-cased (ASCII), '.'-separated descent through nested maps; configuration keys contain no '.', no U+212A/U+0130",
         "notifier detail: a configured notifier has one of the four class names (enforced at start-up by the notifier coordinator, C19)",
     ]
     chk.trusted += ["httprouter matching/redirects/405/OPTIONS; viper lookup semantics as modelled; encoding/json; "
-                    "translator /verif/translator/http (go/ast walk) for RouteTable/ReadSets/RespFields"]
+                    "translator /verif/translator/http (go/ast walk, routes mode) for RouteTable (rows, router options, per-handler request types)"]
 
 
 def replay(path):
     import json
-    import os
     import framework
     obj = json.load(open(path))
     chk = framework.Check("C16", "quick", int(obj.get("seed", 1)))
+    if "case" not in obj:
+        print("replay file names no input (failed obligation: %s); re-run bin/check C16" % obj.get("broken"))
+        return 1
     pre(chk)
     C.build_coq()
-    impl, model, mism = chk.differential("http", "http", "TestVerifProbeHttp", [obj["case"]], name="replay")
-    print("impl :", impl[0])
-    print("model:", model[0])
+    case = obj["case"]
+    impl, model, mism = chk.differential(*PROBE, [case], name="replay", project=project)
+    print("impl :", impl[0][:2000])
+    print("model:", model[0][:2000])
+    if case.startswith("e2e"):
+        verdict, why = ("violation", "dumps differ") if project(impl[0]) != "E2E same" else ("ok", "e2e-same (codes not re-judged on replay)")
+        key = None
+    else:
+        m = meta_of_line(case)
+        verdict, why = judge(case, m, impl[0])
+        key = G.classify(case, why) if verdict == "violation" else None
+    print("oracle on the implementation's output:", verdict, "-", why, ("[known finding %s]" % key) if key else "")
     print("stored oracle verdict:", obj.get("oracle_verdict"))
-    return 1 if (mism or impl[0] != obj.get("impl_output")) and not obj.get("classifier") else 0
+    if verdict == "violation" and not (key and chk.known_finding(key)):
+        return 1
+    return 1 if mism else 0
